@@ -36,12 +36,35 @@ for p in "$HERE"/mutants/*.patch; do
   done
   rm -rf "$SCR"
 done
+# independently written breaking changes (seeded/<id>/, DESIGN section 13) that target this property
+for d in "$HERE"/seeded/*/; do
+  [ -f "$d/patch.diff" ] || continue
+  tgt=$(sed -n 's/.*"property": *"\([A-Z0-9]*\)".*/\1/p' "$d/meta.json" | head -1)
+  [ "$tgt" = "$ID" ] || continue
+  name="seeded/$(basename "$d")"
+  SCR=$(mktemp -d /tmp/vsens.XXXXXX)
+  mkdir -p "$SCR/src" "$SCR/ev/evidence"
+  rsync -a --exclude .git "$REPO"/ "$SCR/src"/
+  cp "$HERE/known_findings.json" "$SCR/ev/" 2>/dev/null
+  if ! (cd "$SCR/src" && git apply "$d/patch.diff" >/dev/null 2>&1); then
+    echo "$name any stale" >> "$RES"; rm -rf "$SCR"; continue
+  fi
+  out=$(VERIF_REPO="$SCR/src" VERIF_DIR="$SCR/ev" "$BIN" "$ID" quick 2>&1)
+  if echo "$out" | grep -q "^VIOLATION property=$ID "; then
+    r=$(echo "$out" | grep -v '^KNOWN-FINDING' | grep -o '\[R[0-9]*\.[0-9a-z]*\]' | sort -u | tr -d '[]' | tr '\n' '+' | sed 's/+$//')
+    echo "$name ${r:-any} fired" >> "$RES"
+  else
+    echo "$name any MISSED" >> "$RES"
+    echo "SENSITIVITY-MISS property=$ID independently written breaking change $name is not reported" >&2
+  fi
+  rm -rf "$SCR"
+done
 python3 - "$HERE/evidence/$ID.json" "$RES" <<'PY'
 import json,sys
 ev=json.load(open(sys.argv[1]))
 rows=[l.split() for l in open(sys.argv[2]) if l.strip()]
 ev.setdefault("coverage",{})["sensitivity"]={
- "explanation":"informational: each seeded break of /verif/mutants naming this property was applied to a scratch copy of the current tree and the same static check re-run on it; 'fired' = the expected rule reported a violation. Not part of the verdict.",
+ "explanation":"informational: each seeded break of /verif/mutants naming this property, and each independently written breaking change of /verif/seeded targeting it, was applied to a scratch copy of the current tree and the same static check re-run on it; 'fired' = the expected rule reported a violation. Not part of the verdict.",
  "seeded_breaks":len(rows),"fired":sum(1 for r in rows if r[2]=="fired"),
  "results":[{"patch":r[0],"rule":r[1],"result":r[2]} for r in rows]}
 json.dump(ev,open(sys.argv[1],"w"),indent=1)
